@@ -72,9 +72,9 @@ def sumOver? (x : FArr α) (ks : List DimKey) : Option (FArr α) := do
 /-- `cast_values_to(target_dims)`: reorder by einsum, insert new axes, tile -/
 def castValuesTo? (x : FArr α) (target : DimSet) : Option (ND α) :=
   if !(x.letters.all ((DimSet.letters target).contains ·)) then none else do
-    let ordered := (DimSet.letters target).filter (x.letters.contains ·)
-    let v ← einsum1 (Gen.castIn x.letters ordered) (Gen.castOut x.letters ordered) x.values
-    let keep := (DimSet.letters target).map (x.letters.contains ·)
+    let tl := DimSet.letters target
+    let v ← einsum1 (Gen.castIn x.letters tl) (Gen.castOut x.letters tl) x.values
+    let keep := tl.map (x.letters.contains ·)
     let multiple := target.map (fun d => if x.letters.contains d.letter then 1 else d.len)
     some ((v.newaxisIndex keep).tile multiple)
 
